@@ -47,10 +47,18 @@ TOKEN = {k: i + 1 for i, k in enumerate(sorted(SCALAR))}
 
 
 class LogWorld:
-    def __init__(self, rnd):
+    def __init__(self, rnd, base=None, shift=0):
         self.rnd = rnd
         texts = ['text of %s' % k for k in STR_KEYS] + ['literal %d' % i for i in range(5)] + ['%d', 'tok', 'type ns', 'obj repr', '']
         rnd.shuffle(texts)
+        if base is not None:
+            # another dump whose string index uses the SAME numbers for OTHER strings: the texts of `base` with the
+            # format-related strings (and the literals) rotated among their numbers
+            texts = [base.strings[i] for i in range(len(base.strings))]
+            for group in (['%d', 'tok', 'type ns', 'obj repr'], ['literal %d' % i for i in range(5)] + ['']):
+                pos = [texts.index(t) for t in group]
+                for k, t in enumerate(group):
+                    texts[pos[(k + shift) % len(group)]] = t
         self.strings = {i: t for i, t in enumerate(texts)}              # id -> text (string numbers start at 0)
         self.sid = {t: i for i, t in self.strings.items()}
         self.key_sid = {k: self.sid['text of %s' % k] for k in STR_KEYS}
@@ -71,19 +79,20 @@ class LogWorld:
                 seg['lp'] = rnd.choice(lit)
                 ab[0] = seg['lp']
             if rnd.random() < 0.8:
-                ph = {'w': rnd.randrange(0, 9), 'p': rnd.randrange(0, 80)}
+                ph = {'w': rnd.choice([0, 0, 0, 1, 8, rnd.randrange(0, 9)]), 'p': rnd.choice([0, 0, 0, 6, 79, rnd.randrange(0, 80)])}
                 a_ph = [-1, -1, -1, ph['w'], ph['p'], []]
+                fmt = [self.sid[x] for x in ('%d', 'tok', 'type ns', 'obj repr')]     # any format string in any role
                 if rnd.random() < 0.7:
-                    ph['rs'] = self.sid['%d']
+                    ph['rs'] = rnd.choice([self.sid['%d'], rnd.choice(fmt)])
                     a_ph[0] = ph['rs']
                 if rnd.random() < 0.5:
-                    ph['tn'] = self.sid['type ns']
+                    ph['tn'] = rnd.choice([self.sid['type ns'], rnd.choice(fmt)])
                     a_ph[1] = ph['tn']
                 if rnd.random() < 0.5:
-                    ph['ty'] = self.sid['tok']
+                    ph['ty'] = rnd.choice([self.sid['tok'], rnd.choice(fmt)])
                     a_ph[2] = ph['ty']
                 if rnd.random() < 0.6:
-                    ph['t'] = [self.sid['tok']] * rnd.randrange(0, 3)
+                    ph['t'] = [rnd.choice([self.sid['tok'], rnd.choice(fmt)])] * rnd.randrange(0, 3)
                     a_ph[5] = list(ph['t'])
                 seg['p'] = ph
                 ab[1] = a_ph
@@ -263,7 +272,10 @@ def run(ctx):
     time.tzset()
     rnd = random.Random(ctx.seed)
     ctx.expect_ok(run_tlc('LogDecode_MC', MC_CFG, ctx.workdir, name='traceid', timeout=3600))
-    lw = LogWorld(rnd)
+    # several dumps' string indexes in one process: the same string NUMBERS mean other strings in the next record
+    lws = [LogWorld(rnd) for _ in range(3)]
+    lws += [LogWorld(rnd, base=lws[k % 3], shift=1 + k % 3) for k in range(6)]
+    lw = lws[0]
     dflt = default_event()
     subsets = [()] + [(k,) for k in OPT] + list(itertools.combinations(OPT, 2)) + \
               [tuple(x for x in OPT if x != k) for k in OPT] + [tuple(OPT)]
@@ -271,7 +283,7 @@ def run(ctx):
         subsets.append(tuple(k for k in OPT if rnd.random() < rnd.choice([0.2, 0.5, 0.8])))
     obs, raws = [], {}
 
-    def observe(oid, raw, ab, via):
+    def observe(oid, raw, ab, via, lw):
         o = {'id': oid, 'raw': ab, 'empty': lw.sid['']}
         try:
             ev = decode_direct(lw, raw) if via == 'direct' else decode_via_file(lw, raw)
@@ -283,10 +295,11 @@ def run(ctx):
         raws[oid] = raw
 
     for i, keys in enumerate(subsets):
+        lw = lws[i % len(lws)]
         raw, ab = lw.record(keys, dm_shape=[0, 1, 3, 2, 4][i % 5])
-        observe('s%d_direct' % i, raw, ab, 'direct')
+        observe('s%d_direct' % i, raw, ab, 'direct', lw)
         if i % (4 if ctx.quick else 2) == 0:
-            observe('s%d_file' % i, raw, ab, 'file')
+            observe('s%d_file' % i, raw, ab, 'file', lw)
     # every defined trace-identifier word
     nti = 0
     for ns, types in TYPES.items():
@@ -298,9 +311,10 @@ def run(ctx):
                     combos = itertools.product([False, True], repeat=3)
                     for aid, up, lo in (combos if (not ctx.quick or (fl in (0, 1, 3, 128, 159, 31))) else [(True, False, True)]):
                         code = rnd.choice([0, 0xdeadbeef, 0xffffffff, 1])
+                        lw = lws[nti % len(lws)]
                         w = lw.ti_word(ns, ty, fl, pcs, aid, up, lo, code)
                         raw, ab = lw.record(('ti',), ti=w)
-                        observe('ti_%016x' % w, raw, ab, 'direct')
+                        observe('ti_%016x' % w, raw, ab, 'direct', lw)
                         nti += 1
     nv, rej, _ = validate_observations('LogDecode_Val', obs, ctx.workdir, name='c16val', timeout=3000)
     ctx.traces += nv
